@@ -414,3 +414,26 @@ func escSpelling(idx int64, thorough bool) string {
 	}
 	panic("escSpelling: index out of range")
 }
+
+// boundaryNums: spellings at the edges of int64 / float64 that no length
+// bound reaches: the largest representable value and its successor in every
+// base (with and without digit separators), overflow / underflow / rounding
+// boundaries of decimal and hexadecimal floats.
+func boundaryNums() []string {
+	out := []string{
+		"9223372036854775807", "9223372036854775808", "9_223_372_036_854_775_807", "9_223_372_036_854_775_808",
+		"0x7fffffffffffffff", "0x8000000000000000", "0X7FFF_FFFF_FFFF_FFFF", "0xffffffffffffffff", "0x10000000000000000",
+		"0777777777777777777777", "01000000000000000000000", "0o777777777777777777777", "0o1000000000000000000000",
+		"0b111111111111111111111111111111111111111111111111111111111111111",
+		"0b1000000000000000000000000000000000000000000000000000000000000000",
+		"18446744073709551615", "18446744073709551616", "99999999999999999999999999",
+		"1.7976931348623157e308", "1.7976931348623158e308", "1.7976931348623159e308", "1.797693134862315807e308", "1.797693134862315808e308",
+		"1e308", "1e309", "2e308", "1e999", "1e-323", "4.9e-324", "5e-324", "2.5e-324", "2.4e-324", "2.47e-324", "1e-400", "0e999", "0.0e-999",
+		"0x1p1023", "0x1p1024", "0x1.fffffffffffffp1023", "0x1.fffffffffffff7p1023", "0x1.fffffffffffff8p1023", "0x1p-1074", "0x1p-1075", "0x1.8p-1075", "0x1p-1076", "0x1p-9999",
+		"0x1.00000000000008p0", "0x1.00000000000018p0", "0x1.000000000000081p0", "0X1.8P+1", "0x_1.8p-1", "0x1_0.p0_1",
+		"9007199254740993.0", "9007199254740992.5", "0.1", "0.30000000000000004", "123456789012345678901234567890.0",
+		"179769313486231570814527423731704356798070567525844996598917476803157260780028538760589558632766878171540458953514382464234321326889464182768467546703537516986049910576551282076245490090389328944075868508455133942304583236903222948165808559332123348274797826204144723168738177180919299881250404026184124858368.0",
+		"179769313486231580793728971405303415079934132710037826936173778980444968292764750946649017977587207096330286416692887910946555547851940402630657488671505820681908902000708383676273854845817711531764475730270069855571366959622842914819860834936475292719074168444365510704342711559699508093042880177904174497792.0",
+	}
+	return out
+}
